@@ -48,9 +48,16 @@ Less(metric, q, a, b) == IF metric = "cosine" THEN CosLess(q, a, b) ELSE IntDist
 CosRecordedOk(q, v, dm) ==
   LET c == 1000 - dm   dt == IF Norm2(v) = 0 \/ Norm2(q) = 0 THEN 0 ELSE Dot(q, v)
       nn == IF Norm2(v) = 0 \/ Norm2(q) = 0 THEN 1 ELSE Norm2(v) * Norm2(q)
-      lo == IF Abs(c) > 2 THEN Abs(c) - 2 ELSE 0   hi == Abs(c) + 2
-  IN /\ (Abs(c) > 2 => Sgn(c) = Sgn(dt))
-     /\ lo * lo * nn <= dt * dt * 1000000 /\ dt * dt * 1000000 <= hi * hi * nn
+  IN IF nn <= 2000
+     THEN \* exact bracket: (|c| - 2)^2 nn <= dt^2 10^6 <= (|c| + 2)^2 nn   (fits 32-bit integers)
+          LET lo == IF Abs(c) > 2 THEN Abs(c) - 2 ELSE 0   hi == Abs(c) + 2 IN
+          /\ (Abs(c) > 2 => Sgn(c) = Sgn(dt))
+          /\ lo * lo * nn <= dt * dt * 1000000 /\ dt * dt * 1000000 <= hi * hi * nn
+     ELSE \* long vectors: cos^2 in units of 10^-4 by integer division, bracket of +-15 thousandths
+          LET r == (dt * dt * 10000) \div nn
+              lo == IF Abs(c) > 15 THEN Abs(c) - 15 ELSE 0   hi == Abs(c) + 15 IN
+          /\ (Abs(c) > 15 => Sgn(c) = Sgn(dt))
+          /\ lo * lo <= (r + 1) * 100 /\ r * 100 <= hi * hi
 RecordedOk(metric, q, v, d) == IF metric = "cosine" THEN CosRecordedOk(q, v, d) ELSE d = IntDist(metric, q, v)
 
 \* ---------------------------------------------------------------- the proximity graph g
